@@ -395,7 +395,7 @@ def core():
     # plain unit commands, shared prefixes non-adjacent in declaration order
     E.append(command("plain", [
         variant("GetLed", doc=[" Get led state"]),
-        variant("Exit", doc=[" Leave the shell.", "", " Second paragraph", " continues here."]),
+        variant("Exit", doc=[" Leave the shell.", "", " Second paragraph", " continues here.", "", "", " Third paragraph after two blank lines."]),
         variant("GetAdc"),
         variant("Go", doc=[" Go.."]),
     ]))
@@ -422,6 +422,9 @@ def core():
                           arg("maybe", "bool", optional=True, long=True, short="m"), arg("rest", "str", optional=True)]),
         # required arguments of different kinds interleaved in declaration order (the first MISSING one is reported)
         variant("Copy", [arg("file", "str"), arg("level", "u8", short=True, long=True)]),
+        # generated short name next to an explicit long name with another initial, and the reverse
+        variant("Send", [arg("num", "u8", short=True, long="count"), arg("quiet_mode", "bool", short=True, long="silent"),
+                         arg("text", "str", optional=True)]),
         variant("Mix", [arg("a", "u8"), arg("b", "u8", long=True), arg("c", "str"), arg("d", "i8", short=True), arg("e", "char")]),
     ], title="Arguments"))
     # all value types
@@ -467,6 +470,11 @@ def core():
     E.append(group("grp", [("Base", "base", False), ("Hid", "hid", True), ("Plain", "plain", False), ("Empty", "empty", False)]))
     E.append(group("grp2", [("Top", "top", False), ("Args", "args", False), ("Names", "names", False)]))
     E.append(group("grp3", [("Hid", "hid", True), ("Leaf", "leaf", False)]))
+    # a hidden member declared BEFORE visible members that know the same command names (members are tried in
+    # declaration order, hidden or not)
+    E.append(command("dbg", [variant("Exit", [arg("hard", "bool", long=True)]), variant("Dump", [arg("addr", "u8")]),
+                             variant("Hello", [arg("name", "u8")])], title="Debug"))
+    E.append(group("grp5", [("Dbg", "dbg", True), ("Plain", "plain", False), ("Base", "base", False)]))
     # a group whose members are groups themselves
     E.append(group("grp4", [("Inner", "grp3", False), ("Outer", "grp", False), ("Names", "names", True)]))
     return E
